@@ -443,6 +443,9 @@ func GenOverrideWorld(ch *Choices, thorough bool) *IntegWorld {
 			t.Dir = "/vs/dir-{{.VS_V0}}"
 		}
 	}
+	if ch.Bool(1, 3, "export-as") {
+		t.ExportAs = "VS_SHARED_RESULT" // (its stages stay as independent of each other as they are declared)
+	}
 	if ch.Bool(1, 3, "hooks") {
 		// hooks see the stage's values too; some use the shell idiom NAME=${NAME:-default}, which
 		// turns the environment value into a shell variable of the interpreter that runs the hook
